@@ -37,6 +37,7 @@
 package c16
 
 import (
+	"io"
 	"bytes"
 	"encoding/json"
 	"fmt"
@@ -850,6 +851,11 @@ func fieldSig(p *pkt, dir string, m mismatch, lc string) string {
 }
 
 // evaluate runs every oracle on one packet value against the real codec.
+// dirtyPacket: a PUBLISH whose every variable byte is 0xFF, large enough to cover the header and body area of most
+// packets in the pooled encode buffer.
+var dirtyPacket = &mqtt.Publish{Header: mqtt.Header{DUP: true, QOS: 2, Retain: true}, MessageID: 0xFFFF,
+	Topic: bytes.Repeat([]byte{0xFF}, 300), Payload: bytes.Repeat([]byte{0xFF}, 600)}
+
 func evaluate(p *pkt) outcome {
 	var o outcome
 	add := func(sig, what string) { o.viols = append(o.viols, viol{sig, what}) }
@@ -913,6 +919,9 @@ func evaluate(p *pkt) outcome {
 	// -- emitter encodes
 	var wire bytes.Buffer
 	var err error
+	// what the encoder reuses (its pooled buffer) is first filled with bytes no correct packet leaves in place: an
+	// encoder that skips writing a byte would emit the leftover
+	safely(func() { dirtyPacket.EncodeTo(io.Discard) })
 	if pan := safely(func() { _, err = buildEmitter(p).EncodeTo(&wire) }); pan != "" {
 		add(p.T+":panic:"+lc, fmt.Sprintf("EncodeTo panicked (remaining length %d, whole packet %d bytes): %s", r, 1+len(specLen)+r, pan))
 	} else if err != nil {
